@@ -51,6 +51,8 @@ type Result struct {
 	Callbacks int64      `json:"callbacks,omitempty"`
 	G0        int        `json:"-"`
 	Parser    *parserObs `json:"parser,omitempty"`
+	HdrKeys   int        `json:"header_names,omitempty"`
+	HdrVals   int        `json:"header_values,omitempty"`
 	Pre       []preObs   `json:"exchanges_before,omitempty"`
 	Conns     int        `json:"connections_used,omitempty"`
 	LeakStack string     `json:"leak_stack,omitempty"`
@@ -263,6 +265,10 @@ func (w *world) attempt(cs *Case, data [][]byte) *Result {
 		res.HdrCE = resp.Header.Get("Content-Encoding")
 		res.HdrCT = resp.Header.Get("Content-Type")
 		res.HdrAE = resp.Header.Get("Accept-Encoding")
+		res.HdrKeys = len(resp.Header)
+		for _, vs := range resp.Header {
+			res.HdrVals += len(vs)
+		}
 		if resp.Response.Body == nil {
 			res.BodyNil = true
 			return
